@@ -194,6 +194,7 @@ func (x *Exec) Verify(fn *ssa.Function, ct *Contract) (rep *FuncReport) {
 				}
 			}
 		}
+		x.prepareRegions(env)
 		// vacuity: the precondition must be satisfiable
 		x.obls = append(x.obls, &Obligation{Name: fmt.Sprintf("%s.%s.vacuity.requires_sat", x.prop, x.topShort()), Func: x.topKey(), Kind: "vacuity", Clause: "requires clauses are satisfiable (must be sat)", Assume: append([]string(nil), st.pc...), Goal: "false"})
 	}
@@ -205,6 +206,7 @@ func (x *Exec) Verify(fn *ssa.Function, ct *Contract) (rep *FuncReport) {
 	if x.unverified == "" && ct != nil {
 		x.checkPosts(fn, ct, outs)
 	}
+	x.splitRegions()
 	rep.Paths = x.paths
 	rep.Unverified = x.unverified
 	rep.Obls = x.obls
